@@ -177,6 +177,9 @@ class System:
                 ops.append(dict(op="M", az=a, i=i))
         for r in ranges[:3]:
             ops.append(dict(op="U", rng=list(r)))
+        # a range update whose peak options scipy refuses (it raises): what follows must not see it
+        for r in [(f[1], f[F - 2]), (None, f[F - 3]), (f[2], None)]:
+            ops.append(dict(op="Ubad", rng=list(r)))
         self.ops = ops
         self.hist = ()
 
@@ -207,6 +210,12 @@ class System:
             return None
         if op["op"] == "U":
             o.update_peaks_bounded(search_range_in_hz=tuple(op["rng"]))
+            return None
+        if op["op"] == "Ubad":
+            try:
+                o.update_peaks_bounded(search_range_in_hz=tuple(op["rng"]), find_peaks_kwargs={"distance": 0})
+            except ValueError:
+                return ("raised", "ValueError")
             return None
         return self._judge_F(o, op)
 
